@@ -17,6 +17,7 @@ from . import c20_disp
 from . import c20_worker
 from . import c20_master
 from . import c20_sched
+from . import c20_mpi
 
 PID  = 'C20'
 RULE = ('four kinds of cases, all plain data. '
@@ -51,7 +52,7 @@ ASSUMPTIONS = [
     'radical.utils.get_version shim (src/radical/pilot/VERSION absent in this tree)',
     'proc / shell requests spawn a real /bin/sh; process-level environment is read through libc '
     'getenv (ctypes)']
-NOT_REACHED = ['MPI workers (worker_mpi.py): need mpi4py and an MPI launcher',
+NOT_REACHED = ['MPI workers under a real MPI launcher (mpi4py): communicators and rank processes are stand-ins',
                'TASK_METH requests: TaskDescription has no "method" attribute, so no verified '
                'description can reach Worker._dispatch_meth',
                'payloads ending in KeyboardInterrupt; real signals; real races between the request '
@@ -214,7 +215,8 @@ def parts(tier):
             Part('worker_streams', worker_cases(),     quick=600, thorough=3000),
             Part('master_streams', master_cases(),     quick=400, thorough=2500),
             Part('sched_forwarding', sched_cases(),    quick=300, thorough=2000),
-            Part('worker_submission', worker_submit_cases(), quick=120, thorough=600)]
+            Part('worker_submission', worker_submit_cases(), quick=120, thorough=600),
+            Part('mpi_worker_streams', c20_mpi.cases(), quick=300, thorough=2500)]
 
 
 def run_case(case):
@@ -229,11 +231,15 @@ def run_case(case):
         return c20_sched.run_sched_case(case)
     if kind == 'worker_submit':
         return c20_master.run_worker_submit(case)
+    if kind == 'mpi_worker':
+        return c20_mpi.run_case(case)
     res = CaseResult()
     return res
 
 
 def normalise(case):
+    if isinstance(case, dict) and case.get('kind') == 'mpi_worker':
+        return c20_mpi.normalise(case)
     if not isinstance(case, dict) or case.get('kind') not in ('dispatch', 'worker', 'master', 'sched', 'worker_submit'):
         return None
     return case
